@@ -322,6 +322,17 @@ def _exec_worker(task):
         info = {'q': e, 'err': d if isinstance(d, str) else None, 'n_sel': 0 if isinstance(d, str) else len(d[0]),
                 'reordered': False, 'differing': False}
         qinfo.append(info)
+        if not isinstance(d, str):
+            selx = K16.select_subsets(K16.parse_path(e).subset_slice, n_sub)
+            if isinstance(selx, str):
+                raise core.MachineryError('selector of %r designates %s but the query is answered' % (e, selx))
+            flats = [repr(py_flat(x)) for x in d[1]]
+            info['reordered'] = selx != sorted(selx)
+            info['differing'] = len(set(flats)) > 1
+            info['all_differ'] = len(flats) > 1 and len(set(flats)) == len(flats)
+            info['nonempty'] = any(py_flat(x) for x in d[1])
+            info['has_empty_subset'] = any(not py_flat(x) for x in d[1]) and info['nonempty']
+            info['nested'] = any(isinstance(y, list) for x in d[1] for y in x)
         tags = sorted(set(st for st, _ in runs.values()))
         # (c) the script fails exactly when the query fails, in the same family
         if isinstance(d, str):
@@ -338,16 +349,6 @@ def _exec_worker(task):
         byp = {lv: runs[(lv, 'by_pragma')][1]['x'] for lv in LEVELS}
         high = runs[(hi, 'high')][1]['x']
         idx, nested = d
-        selx = K16.select_subsets(K16.parse_path(e).subset_slice, n_sub)
-        if isinstance(selx, str):
-            raise core.MachineryError('selector of %r designates %s but the query is answered' % (e, selx))
-        info['reordered'] = selx != sorted(selx)
-        flats = [repr(py_flat(x)) for x in nested]
-        info['differing'] = len(set(flats)) > 1
-        info['all_differ'] = len(flats) > 1 and len(set(flats)) == len(flats)
-        info['nonempty'] = any(py_flat(x) for x in nested)
-        info['has_empty_subset'] = any(not py_flat(x) for x in nested) and info['nonempty']
-        info['nested'] = any(isinstance(y, list) for x in nested for y in x)
         sig = why = None
         # (a) the laws on the implementation's own outputs
         bad = law_check(vals)
@@ -426,7 +427,11 @@ def _exec_worker(task):
             bad = 'message / file name not bound'
         else:
             for i, e in enumerate(distinct):
-                want = mq.query(msg, e) if e.startswith('%') else level_values(direct[e][1], level)
+                try:
+                    want = mq.query(msg, e) if e.startswith('%') else level_values(direct[e][1], level)
+                except Exception as ex:  # noqa
+                    bad = 'the metadata query %r raises %r' % (e, ex)
+                    break
                 if not V.strict_equal(out['PBK_%d' % i], want):
                     bad = 'variable PBK_%d is %s, the result of %r at level %d is %s' % (i, show(out['PBK_%d' % i]), e, level, show(want))
                     break
@@ -515,7 +520,7 @@ def build_tasks(ctx, drv):
     rng = ctx.rng('exec-graded')
     for ids, factors in GRADED:
         for comp in (False, True):
-            for _ in range(1 if quick else 4):
+            for _ in range(2 if quick else 4):
                 n = rng.randint(3, 7)
                 b, vals = build_graded(drv, treq, ids, factors, n, comp, rng)
                 if b is None:
@@ -526,7 +531,7 @@ def build_tasks(ctx, drv):
     rng = ctx.rng('exec-shapes')
     shapes = [s for s in list(K9.SHAPES) + K16.EXTRA_SHAPES if not K16.excluded(s[0])]
     if quick:
-        shapes = rng.sample(shapes, 12)
+        shapes = rng.sample(shapes, 16)
     for ids, forced, tag in shapes:
         for comp in ((rng.random() < 0.5,) if quick else (False, True)):
             b, vals = K9.build_message(drv, treq, ids, forced, rng.randint(3, 6), comp, rng)
@@ -536,7 +541,7 @@ def build_tasks(ctx, drv):
             add(b, ids, 'shape:' + tag, 24 if quick else 80)
     # -- the generated pipeline, up to 7 subsets
     rng = ctx.rng('exec-generated')
-    n_gen = 45 if quick else 900
+    n_gen = 60 if quick else 900
     cases = []
     for level in (0, 1, 2):
         cases += P.gen_cases(rng, n_gen // 3, level=level, max_subsets=7)
@@ -654,7 +659,7 @@ def run_exec_generated(ctx):
     ctx.count('exec-gen:model-levels-compared', len(flat_meta))
     ctx.notes.append('execution on generated messages: %d queries with a reordering selector on subsets whose results differ '
                      '(%d with pairwise different results)' % (n_reordered_differing, n_neg_all_differ))
-    if n_reordered_differing < 20:
+    if n_reordered_differing < 20 and ctx.violations == 0:
         raise core.MachineryError('the generator of the execution part produced only %d queries with a reordering selector on '
                                   'subsets with different results' % n_reordered_differing)
 
